@@ -20,6 +20,9 @@
 #include <limits.h>
 #include <sys/stat.h>
 #include <sys/types.h>
+#include <sys/wait.h>
+#include <fcntl.h>
+#include <signal.h>
 
 /* ------------------------------------------------------------------ names */
 #define NNAMES 7
@@ -956,7 +959,7 @@ int main(int argc, char **argv) {
             if (rc == 0) {
                 dg_add(&d, buf.buffer, buf.len);
                 nul = buf.capacity > buf.len && buf.buffer[buf.len] == 0;
-                own = buf.allocator == vh_alloc() && vh_block_size(buf.buffer) != (size_t)-1;
+                own = buf.allocator == vh_alloc() && vh_block_size(buf.buffer) != (size_t)-1 && vh_block_size(buf.buffer) >= buf.capacity;
                 aws_byte_buf_clean_up(&buf);
             } else {
                 struct aws_byte_buf z, u;
@@ -969,6 +972,69 @@ int main(int argc, char **argv) {
             vh_int("own", own);
             vh_int("unused", unused);
             free(c);
+            state_tree();
+            vh_end();
+        } else if (vh_is("FIFOREAD")) {
+            /* FIFOREAD seed n hinted hint: a source whose size fstat() does not know (a FIFO outside the modelled tree, fed by
+             * a child process with n generated bytes): the reader has to find the end by reading.  w = digest of what was
+             * written, c = digest of what the buffer holds; own = the buffer belongs to the allocator that was passed AND
+             * its block is at least as large as the capacity it claims. */
+            unsigned seed = (unsigned)vh_argu(1);
+            size_t n = (size_t)vh_argu(2);
+            int hinted = (int)vh_argi(3);
+            size_t hint = (size_t)vh_argu(4);
+            char fifo[PATH_MAX + 16];
+            snprintf(fifo, sizeof(fifo), "%s/fifo", sbase);
+            unlink(fifo);
+            int mk = mkfifo(fifo, 0600);
+            uint8_t *data = gen_chunk(seed, n);
+            struct dg w;
+            dg_init(&w);
+            dg_add(&w, data, n);
+            fflush(vh_out);
+            pid_t child = mk == 0 ? fork() : -1;
+            if (child == 0) {
+                int fd = open(fifo, O_WRONLY);
+                size_t done = 0;
+                while (fd >= 0 && done < n) {
+                    ssize_t k = write(fd, data + done, n - done);
+                    if (k <= 0) {
+                        break;
+                    }
+                    done += (size_t)k;
+                }
+                _exit(0);
+            }
+            struct aws_byte_buf buf;
+            memset(&buf, 0xCD, sizeof(buf));
+            int rc = child > 0 ? (hinted ? aws_byte_buf_init_from_file_with_size_hint(&buf, vh_alloc(), fifo, hint)
+                                         : aws_byte_buf_init_from_file(&buf, vh_alloc(), fifo))
+                               : -1;
+            if (child > 0) {
+                kill(child, SIGKILL); /* it has written everything or the reader gave up */
+                waitpid(child, NULL, 0);
+            }
+            unlink(fifo);
+            vh_begin("BufFromFifo");
+            vh_int("made", child > 0);
+            vh_int("hinted", hinted);
+            vh_int("hint", (long long)hint);
+            vh_rc(rc);
+            log_dg("w", &w);
+            struct dg d;
+            dg_init(&d);
+            int nul = 0, own = 0;
+            if (rc == 0) {
+                dg_add(&d, buf.buffer, buf.len);
+                nul = buf.capacity > buf.len && buf.buffer[buf.len] == 0;
+                size_t blk = vh_block_size(buf.buffer);
+                own = buf.allocator == vh_alloc() && blk != (size_t)-1 && blk >= buf.capacity;
+                aws_byte_buf_clean_up(&buf);
+            }
+            log_dg("c", &d);
+            vh_int("nul", nul);
+            vh_int("own", own);
+            free(data);
             state_tree();
             vh_end();
         } else if (vh_is("ISSEP")) {
